@@ -549,6 +549,7 @@ package eval
 //@   inline
 //@   loop 1
 //@     invariant [cursor] (and (<= 0 $start) (< $start $i) (<= $i (len $A)))
+//@     invariant [literal-ends-at-the-first-quote] (forall ((k Int)) (! (=> (and (< $start k) (< k $i)) (not (= (idx $A k) 34))) :pattern ((idx $A k))))
 //@ func parser.lex.nextToken C06 C14
 //@   inline
 //@   loop 1
